@@ -124,3 +124,47 @@ Section EntryPoints.
              | None => tf_of_data D k (value k r)
              end.
 End EntryPoints.
+
+(* ------------------------------------------------------------------------------------ *)
+(* The anti-join of _score_missing_cluster_edges as emitted:
+     SELECT ne.* FROM raw_pairs ne LEFT JOIN predictions oe ON <on> WHERE <wh>
+   over the (never NULL) composite join keys; translators/c10_sql.py extracts <on>, <wh>. *)
+Inductive jkey := KNeL | KNeR | KOeL | KOeR.
+Inductive jbx := JEq (a b : jkey) | JAnd (a b : jbx) | JIsNull (k : jkey).
+
+Definition jkey_eqb (a b : jkey) : bool :=
+  match a, b with KNeL, KNeL | KNeR, KNeR | KOeL, KOeL | KOeR, KOeR => true | _, _ => false end.
+Fixpoint jbx_eqb (a b : jbx) : bool :=
+  match a, b with
+  | JEq x y, JEq x' y' => jkey_eqb x x' && jkey_eqb y y'
+  | JAnd x y, JAnd x' y' => jbx_eqb x x' && jbx_eqb y y'
+  | JIsNull x, JIsNull x' => jkey_eqb x x'
+  | _, _ => false
+  end.
+
+(* oe = None: the NULL-extended row of the LEFT JOIN *)
+Definition jval (ne : nat * nat) (oe : option (nat * nat)) (k : jkey) : option nat :=
+  match k with
+  | KNeL => Some (fst ne) | KNeR => Some (snd ne)
+  | KOeL => option_map fst oe | KOeR => option_map snd oe
+  end.
+Fixpoint jeval (ne : nat * nat) (oe : option (nat * nat)) (e : jbx) : tv :=
+  match e with
+  | JEq a b => match jval ne oe a, jval ne oe b with Some x, Some y => of_bool (Nat.eqb x y) | _, _ => U end
+  | JAnd a b => and3 (jeval ne oe a) (jeval ne oe b)
+  | JIsNull k => match jval ne oe k with None => T | Some _ => F end
+  end.
+Definition left_join_where (on wh : jbx) (ne : nat * nat) (preds : list (nat * nat)) : list (nat * nat) :=
+  match filter (fun oe => isT (jeval ne (Some oe) on)) preds with
+  | [] => if isT (jeval ne None wh) then [ne] else []
+  | ms => map (fun _ => ne) (filter (fun oe => isT (jeval ne (Some oe) wh)) ms)
+  end.
+Definition canon_on : jbx := JAnd (JEq KOeL KNeL) (JEq KOeR KNeR).
+Definition canon_wh : jbx := JAnd (JIsNull KOeL) (JIsNull KOeR).
+Definition key_pair_eqb (a b : nat * nat) : bool := Nat.eqb (fst a) (fst b) && Nat.eqb (snd a) (snd b).
+(* what the translator's output is checked against: None = no predictions supplied, no join *)
+Definition anti_join_ok (j : option (jbx * jbx)) (supplied : bool) : bool :=
+  match j with
+  | None => negb supplied
+  | Some (on, wh) => supplied && jbx_eqb on canon_on && jbx_eqb wh canon_wh
+  end.
